@@ -101,6 +101,62 @@ def overflow_operand_deps(b, dp, bi):
     return dp.of_place(c['pl'], (bi, 10 ** 6))
 
 
+def raw_overflow_rule(f, P, rep, rid, name, b, roots, cks, dp, memo, n_assert):
+    """every overflow-checked operation on a value that depends on a raw argument is dominated by a check on that
+    argument; for additions / multiplications / left shifts the check must bound it (an order comparison or a checked
+    operation - an equality or alignment test does not)"""
+    rootset = {roots[k]: k for k in roots}
+    for bi in sorted(b.reachable()):
+        t = b.blocks[bi]['term']
+        deps = None
+        what = None
+        if t['k'] == 'assert' and t['msg'].startswith('Overflow'):
+            deps = overflow_operand_deps(b, dp, bi)
+            what = 'arithmetic (%s)' % t['msg'].split(',')[0]
+        elif t['k'] == 'call' and t.get('fn') and f.body(t['fn']) is not None and not f.body(t['fn']).is_coroutine:
+            sub = overflow_params(f, P, t['fn'], memo)
+            ds = set()
+            for i in sub:
+                if i < len(t['args']):
+                    ds |= dp.of_operand(t['args'][i], (bi, 10 ** 6))
+            if ds:
+                deps = ds
+                what = 'call of %s (overflow-checked arithmetic on its argument)' % short(t['fn'])
+        if not deps:
+            continue
+        raw = sorted({rootset[x[1]] for x in deps if x[0] == 'in' and x[1] in rootset})
+        if not raw:
+            continue
+        n_assert[0] += 1
+        missing = []
+        unbounded = []
+        upward = t['k'] == 'assert' and any(x in t['msg'] for x in ('Overflow(Add', 'Overflow(Mul', 'Overflow(Shl'))
+        if upward and any(x[0] == 'fn' and x[1].rsplit('::', 1)[-1].startswith(('min', 'clamp', 'saturating_', 'checked_', 'wrapping_'))
+                          for x in deps):
+            upward = False      # an operand went through a clipping operation: bounded by that, not by a test
+        for r in raw:
+            idx = roots[r]
+            dom = [c for c in cks if ('in', idx) in c['deps'] and b.dominates(c['bi'], bi) and bi not in c['reject']]
+            if not dom:
+                missing.append(r)
+            elif upward and r != 'buf' and not any(c.get('order') for c in dom):
+                # (the length of the caller's buffer is a slice length: bounded by isize::MAX by construction)
+                # tested, but only for equality / alignment: that does not bound it
+                unbounded.append(r)
+        rep.ob(rid, '%s: %s at %s' % (name, what, b.where(bi)), not missing and not unbounded,
+               'depends on raw %s; unvalidated: %s; tested for equality/alignment only: %s' % (raw, missing, unbounded))
+        if unbounded and not missing:
+            rep.violation(rid, '%s:%s:%s:unbounded' % (rid, name, '+'.join(unbounded)), b.where(bi),
+                          '%s: %s at %s adds to / multiplies the raw argument(s) %s, which were tested before only for equality '
+                          'or alignment: no comparison bounds them from above, so a value near the integer limit panics '
+                          '(overflow check) instead of being clipped or rejected' % (name, what, b.where(bi), unbounded))
+        if missing:
+            rep.violation(rid, '%s:%s:%s' % (rid, name, '+'.join(missing)), b.where(bi),
+                          '%s: %s at %s uses the raw argument(s) %s before any check on them: a request with an '
+                          'extreme value panics (overflow check) instead of being rejected' % (
+                              name, what, b.where(bi), missing))
+
+
 def run(ctx, rep):
     f = ctx.lib
     P = Program(f)
@@ -111,13 +167,15 @@ def run(ctx, rep):
         'not decided (value level).')
     rep.rule('C13.1', 'each required validation check exists, rejects by returning without suspending, and dominates every await')
     rep.rule('C13.2', 'every overflow assert (own or in a called pure helper) on a value depending on a raw argument is '
-                      'dominated by a check whose condition depends on that argument')
+                      'dominated by a check whose condition depends on that argument; an addition, multiplication or left shift '
+                      'needs a check that bounds the argument (order comparison or checked operation)')
     need = {
         'write_at': {
             'bounds (offset, length, virtual size)': lambda d, r: ('in', r['offset']) in d and ('in', r['buf']) in d and vs(d),
             'length alignment': lambda d, r: ('in', r['buf']) in d and bs(d) and ('in', r['offset']) not in d,
             'offset alignment': lambda d, r: ('in', r['offset']) in d and bs(d) and ('in', r['buf']) not in d,
             'read-only': lambda d, r: ro(d),
+            'zero length': lambda d, r: ('in', r['buf']) in d and not bs(d) and ('in', r['offset']) not in d and not vs(d),
         },
         'read_at': {
             'start beyond the end (offset, virtual size)': lambda d, r: ('in', r['offset']) in d and vs(d) and ('in', r['buf']) not in d,
@@ -130,7 +188,7 @@ def run(ctx, rep):
         },
     }
     memo = {}
-    n_assert = 0
+    n_assert = [0]
     for name, cats in need.items():
         b = validation_body(f, P, name)
         roots = arg_roots(f, b)
@@ -149,45 +207,13 @@ def run(ctx, rep):
                    '%d matching check(s) in %s, %d dominate all %d awaits' % (len(hits), vname, len(dom), len(polls)))
             if not ok:
                 rep.violation('C13.1', 'C13.1:%s:%s' % (name, cat.split(' (')[0]), b.where(0),
-                              '%s: the %s check %s in %s: an invalid request can reach the backend or change metadata' % (
-                                  name, cat, 'does not dominate every await' if hits else 'is missing', vname))
-        # C13.2
-        rootset = {roots[k]: k for k in roots}
-        for bi in sorted(b.reachable()):
-            t = b.blocks[bi]['term']
-            deps = None
-            what = None
-            if t['k'] == 'assert' and t['msg'].startswith('Overflow'):
-                deps = overflow_operand_deps(b, dp, bi)
-                what = 'arithmetic (%s)' % t['msg'].split(',')[0]
-            elif t['k'] == 'call' and t.get('fn') and f.body(t['fn']) is not None and not f.body(t['fn']).is_coroutine:
-                sub = overflow_params(f, P, t['fn'], memo)
-                ds = set()
-                for i in sub:
-                    if i < len(t['args']):
-                        ds |= dp.of_operand(t['args'][i], (bi, 10 ** 6))
-                if ds:
-                    deps = ds
-                    what = 'call of %s (overflow-checked arithmetic on its argument)' % short(t['fn'])
-            if not deps:
-                continue
-            raw = sorted({rootset[x[1]] for x in deps if x[0] == 'in' and x[1] in rootset})
-            if not raw:
-                continue
-            n_assert += 1
-            missing = []
-            for r in raw:
-                idx = roots[r]
-                if not any(('in', idx) in c['deps'] and b.dominates(c['bi'], bi) and bi not in c['reject'] for c in cks):
-                    missing.append(r)
-            rep.ob('C13.2', '%s: %s at %s' % (name, what, b.where(bi)), not missing,
-                   'depends on raw %s; unvalidated: %s' % (raw, missing))
-            if missing:
-                rep.violation('C13.2', 'C13.2:%s:%s' % (name, '+'.join(missing)), b.where(bi),
-                              '%s: %s at %s uses the raw argument(s) %s before any check on them: a request with an '
-                              'extreme value panics (overflow check) instead of being rejected' % (
-                                  name, what, b.where(bi), missing))
-    rep.floor('overflow sites on raw arguments examined', n_assert, 3)
+                              '%s: the %s check %s in %s: %s' % (
+                                  name, cat, 'does not dominate every await' if hits else 'is missing', vname,
+                                  'a request of length 0 goes on to the mapping code, which allocates a cluster, dirties metadata '
+                                  'and sends requests for it' if cat == 'zero length' else
+                                  'an invalid request can reach the backend or change metadata'))
+        raw_overflow_rule(f, P, rep, 'C13.2', name, b, roots, cks, dp, memo, n_assert)
+    rep.floor('overflow sites on raw arguments examined', n_assert[0], 3)
     beyond_end_rule(f, P, rep, 'C13.3')
     device_kind_rule(f, rep, 'C13.4')
 
